@@ -3,7 +3,7 @@
 # (/tmp/mx), so that /repo, /verif/mc and the registered evidence are not touched.
 # usage: matrix.sh <out-file> [seed-dir-glob]
 out=${1:-/tmp/mx/matrix.txt}
-glob=${2:-/verif/seeded/*/}
+glob=${2:-/verif/seeded/C*/ /verif/seeded/own-*/}
 mkdir -p /tmp/mx/verif
 if [ ! -d /tmp/mx/repo ]; then git -C /repo worktree add -q --detach /tmp/mx/repo HEAD && cp /repo/Cargo.lock /tmp/mx/repo/; fi
 git -C /tmp/mx/repo checkout -q --detach $(git -C /repo rev-parse HEAD) 2>/dev/null
@@ -14,6 +14,7 @@ cp /verif/known_findings.json /tmp/mx/verif/
 export BPPMC_VERIF_DIR=/tmp/mx/verif BPPMC_REPO_DIR=/tmp/mx/repo CARGO_NET_OFFLINE=true
 : > $out
 for d in $glob; do
+  [ -f $d/patch.diff ] || continue
   sid=$(basename $d)
   cd /tmp/mx/repo || exit 2
   git checkout -q -- .
